@@ -271,6 +271,7 @@ class KaniRun:
         self.build_s = 0.0
         self.scratch_repo = None
         self.const_eval_error = None
+        self.compile_verdict = None
 
 
 def run_kani(prop, tier, seed=0):
@@ -317,6 +318,16 @@ def run_kani(prop, tier, seed=0):
             errs = [l for l in (out + '\n' + err).splitlines() if l.startswith('error') or l.lstrip().startswith('-->')]
             tail = '\n'.join(errs[:12]) if errs else '\n'.join((err or out).splitlines()[-25:])
             kind = 'compile error in injected harness or crate' if errs else 'no harness results'
+            cv = [files_meta[h.file] for h in hs if files_meta[h.file].get('compileverdict')]
+            if cv and errs:
+                # harness files that ENUMERATE source forms which must compile (arr!/box_arr! invocations, const items): a compile
+                # error located in such a file, or in a macro expanded from it, is the property failing - not a tool problem
+                blocks = re.split(r'\n(?=error)', out + '\n' + err)
+                hit = [b for b in blocks if b.startswith('error') and any(('harness/' + m['fn']) in b for m in cv)
+                       and not re.search(r'error(\[E0433\]|\[E0432\]|\[E0425\]|\[E0412\])', b.split('\n')[0]) and 'verif_support' not in b.split('\n')[0]]
+                if hit:
+                    kr.compile_verdict = {'props': sorted(set(m['compileverdict'] for m in cv)), 'text': '\n'.join(hit)[:4000]}
+                    continue
             if 'error[E0080]' in out + err and any(files_meta[h.file].get('constitems') == '1' for h in hs):
                 # rustc's const evaluator rejected a const item of the generated C18 family: that IS the property failing
                 m = re.search(r'error\[E0080\].*?(?=\n(?:error|warning)|\Z)', out + err, re.S)
